@@ -1166,6 +1166,7 @@ func (s *Server) publishToClient(cl *Client, sub packets.Subscription, pk packet
 		}
 	}
 
+	verifPoint("publish.afterAlias") // schedule point between the alias decision and the queue (verif build tag)
 	select {
 	case cl.State.outbound <- &out:
 		atomic.AddInt32(&cl.State.outboundQty, 1)
